@@ -711,6 +711,23 @@ class Scenario:
         return o
 
 
+def apply_probe(obj, m, sym):
+    """Run the real obj.apply on a f + b g, f, g and a flat theory of length m
+    (symbolic f, g, a, b under the explorer; fixed pseudo-random floats on replay)."""
+    import random
+    if sym:
+        f, g = symx.oarray(symx.reals("f", m)), symx.oarray(symx.reals("g", m))
+        a, b = symx.real("a"), symx.real("b")
+        ones = symx.oarray([Sym(symx.rat(1))] * m)
+    else:
+        rnd = random.Random(7)
+        f = np.array([rnd.uniform(0.5, 2) for _ in range(m)])
+        g = np.array([rnd.uniform(0.5, 2) for _ in range(m)])
+        a, b, ones = 1.75, -0.375, np.ones(m)
+    return {"f": f, "g": g, "a": a, "b": b, "lhs": obj.apply(a * f + b * g),
+            "rf": obj.apply(f), "rg": obj.apply(g), "flat": obj.apply(ones)}
+
+
 class PinholeMatrix(Scenario):
     """pinhole_resolution(q_calc, q, q_width) on fully symbolic grids."""
     kind = "pinhole-matrix"
@@ -760,6 +777,7 @@ def _qperp_uf(q_edges, qi, w):
     uninterpreted function per bin; its properties are the QPerp results."""
     apps = [symx.uf("qperp%d" % j, qi, w) for j in range(len(q_edges) - 1)]
     _notes().setdefault("qperp", []).append((qi, w, apps))
+    _notes().setdefault("qperp_edges", []).append(list(q_edges))
     return symx.oarray(apps)
 
 
@@ -843,7 +861,8 @@ class Pinhole1D(Scenario):
             R.pinhole_resolution = saved
         G, q2, sig, _ = rec.args
         return {"obj": obj, "qcalc": obj.q_calc, "W": obj.weight_matrix, "Wret": rec.ret,
-                "G": G, "q_arg": q2, "sig": sig, "s": s}
+                "G": G, "q_arg": q2, "sig": sig, "s": s,
+                "apply": apply_probe(obj, obj.weight_matrix.shape[0], sym)}
 
 
 class Slit1D(Scenario):
@@ -903,7 +922,8 @@ class Slit1D(Scenario):
             R.slit_resolution = saved
         G, q2, a_width, a_length = rec.args
         return {"obj": obj, "qcalc": obj.q_calc, "W": obj.weight_matrix, "Wret": rec.ret,
-                "G": G, "q_arg": q2, "a_width": a_width, "a_length": a_length}
+                "G": G, "q_arg": q2, "a_width": a_width, "a_length": a_length,
+                "apply": apply_probe(obj, obj.weight_matrix.shape[0], sym)}
 
 
 def bin_edges_ref(x):
@@ -913,3 +933,199 @@ def bin_edges_ref(x):
     return ([x[0] - (x[1] - x[0]) / 2.0]
             + [(x[j] + x[j + 1]) / 2.0 for j in range(len(x) - 1)]
             + [x[-1] + (x[-1] - x[-2]) / 2.0])
+
+
+# --------------------------------------------------------------------------
+# 2-D resolution, Perfect1D, DataMixin
+
+from sasmodels import direct_model as DM     # noqa: E402
+
+
+class _NS:
+    """Minimal data object (attribute bag)."""
+
+    def __init__(self, **kw):
+        self.__dict__.update(kw)
+
+
+def _cp(a):
+    return None if a is None else np.array(a, dtype=(object if getattr(a, "dtype", None) == object else float))
+
+
+def lift_exact(a):
+    """float array -> object array of exact rationals (so that sums of the
+    concrete Gaussian ring weights are not rounded when they meet proxies)."""
+    out = np.empty(np.shape(a), dtype=object)
+    for idx in np.ndindex(out.shape):
+        out[idx] = Sym(symx.rat(a[idx]))
+    return out
+
+
+class Pinhole2D(Scenario):
+    """resolution2d.Pinhole2D(data, accuracy=...) and its apply."""
+    kind = "pinhole2d"
+    functions = ("sasmodels.resolution2d.Pinhole2D.__init__", "sasmodels.resolution2d.Pinhole2D._init_data",
+                 "sasmodels.resolution2d.Pinhole2D._calc_res", "sasmodels.resolution2d.Pinhole2D.apply")
+
+    def build(self, n, accuracy="low", dq="sym"):
+        qx, qy = _arr("qx", n), _arr("qy", n)
+        self.syms = {"qx": qx, "qy": qy}
+        self.assume = [x.t != 0 for x in qx]
+        if dq == "sym":
+            dx, dy = _arr("dpar", n), _arr("dperp", n)
+            self.syms.update({"dpar": dx, "dperp": dy})
+            self.assume += [x.t >= 0 for x in list(dx) + list(dy)]
+
+    def data(self, v, sym):
+        qx, qy = _cp(v["qx"]), _cp(v["qy"])
+        q = (qx * qx + qy * qy)
+        q = sym_sqrt(q) if sym else np.sqrt(q)
+        d = _NS(qx_data=qx, qy_data=qy, q_data=q)
+        if "dpar" in v:
+            d.dqx_data, d.dqy_data = _cp(v["dpar"]), _cp(v["dperp"])
+        return d
+
+    def call(self, v, sym):
+        obj = R2.Pinhole2D(data=self.data(v, sym), accuracy=self.cfg.get("accuracy", "low"))
+        w = obj.q_calc_weights
+        if sym and w is not None:
+            obj.q_calc_weights = lift_exact(w)
+        return {"obj": obj, "qx_calc": obj.q_calc[0], "qy_calc": obj.q_calc[1],
+                "weights": w, "nbins": obj.nr * obj.nphi,
+                "apply": apply_probe(obj, len(obj.q_calc[0]), sym)}
+
+
+class Slit2D(Scenario):
+    kind = "slit2d"
+    functions = ("sasmodels.resolution2d.Slit2D.__init__", "sasmodels.resolution2d.Slit2D.apply")
+
+    def build(self, n):
+        q, L = _arr("q", n), _arr("L", n)
+        W = symx.real("W")
+        self.syms = {"q": q, "L": L, "W": W}
+        self.assume = _incr(q) + [q[0].t > 0, W.t > 0] + [x.t > 0 for x in L]
+
+    def call(self, v, sym):
+        obj = R2.Slit2D(_cp(v["q"]), _cp(v["L"]), v["W"], q_calc=_cp(v["q"]))
+        n = obj.nx * obj.ny
+        theory = symx.oarray([Sym(symx.rat(1))] * n) if sym else np.ones(n)
+        return {"obj": obj, "flat": obj.apply(theory)}
+
+
+class Perfect(Scenario):
+    kind = "perfect1d"
+    functions = ("sasmodels.resolution.Perfect1D.__init__", "sasmodels.resolution.Perfect1D.apply")
+
+    def build(self, n):
+        q = _arr("q", n)
+        self.syms = {"q": q}
+        self.assume = _incr(q) + [q[0].t > 0]
+
+    def call(self, v, sym):
+        obj = R.Perfect1D(v["q"])
+        return {"obj": obj, "qcalc": obj.q_calc, "apply": apply_probe(obj, len(obj.q_calc), sym)}
+
+
+class _FakePar:
+    def __init__(self, default):
+        self.default = default
+
+
+class _FakeModel:
+    """Stands for a KernelModel: records the q vectors it is asked for."""
+
+    def __init__(self, bg_default):
+        self.info = _NS(parameters=_NS(common_parameters=[_FakePar(1.0), _FakePar(bg_default)]))
+        self.q_vectors = None
+
+    def make_kernel(self, q_vectors):
+        self.q_vectors = q_vectors
+        return _NS(q_vectors=q_vectors, results=None)
+
+
+def theory_P(qv):
+    """Uninterpreted unsmeared theory P(q) (P(qx,qy) in 2-D), floats: a smooth
+    stand-in evaluated numerically."""
+    if len(qv) == 1:
+        return [symx.uf("P", x) if isinstance(x, Sym) else 1.0 / (1.0 + 50.0 * x * x) for x in qv[0]]
+    return [symx.uf("P2", x, y) if issym(x, y) else 1.0 / (1.0 + 50.0 * (x * x + 2 * y * y))
+            for x, y in zip(qv[0], qv[1])]
+
+
+def _call_kernel_stub(calculator, pars, cutoff=0., mono=False):
+    """kernel.Kernel.Iq as documented: I(q) = scale * P(q) + background."""
+    P = theory_P(calculator.q_vectors)
+    scale, bg = pars.get("scale", 1.0), pars.get("background", 0.0)
+    return symx.oarray([scale * p + bg for p in P]) if issym(scale, bg, *P) \
+        else np.array([scale * p + bg for p in P], dtype=float)
+
+
+class Direct(Scenario):
+    """DataMixin._interpret_data + _calc_theory with an uninterpreted kernel."""
+    kind = "direct-model"
+    functions = ("sasmodels.direct_model.DataMixin._interpret_data", "sasmodels.direct_model.DataMixin._calc_theory")
+
+    def build(self, dtype, n):
+        self.syms = {"scale": symx.real("scale"), "bg": symx.real("bg")}
+        self.assume = []
+        if dtype == "Iqxy":
+            qx, qy, dx, dy = _arr("qx", n), _arr("qy", n), _arr("dpar", n), _arr("dperp", n)
+            self.syms.update({"qx": qx, "qy": qy, "dpar": dx, "dperp": dy})
+            self.assume += [x.t != 0 for x in qx] + [x.t >= 0 for x in list(dx) + list(dy)]
+            return
+        q = _arr("q", n)
+        self.syms["q"] = q
+        self.assume += _incr(q) + [q[0].t > 0]
+        if dtype == "pinhole":
+            s = _arr("s", n)
+            self.syms["s"] = s
+            self.assume += [x.t >= 0 for x in s] + [z3.Or(*[x.t > 0 for x in s])]
+        if dtype in ("slit", "oriented"):
+            L, W = _arr("L", n), _arr("W", n)
+            self.syms.update({"L": L, "W": W})
+            self.assume += [x.t > 0 for x in list(L) + list(W)]
+
+    def data(self, v, sym):
+        dtype = self.cfg["dtype"]
+        if dtype == "Iqxy":
+            qx, qy = _cp(v["qx"]), _cp(v["qy"])
+            return _NS(qx_data=qx, qy_data=qy, q_data=None, dqx_data=_cp(v["dpar"]), dqy_data=_cp(v["dperp"]),
+                       mask=np.zeros(len(qx)), data=None, err_data=None, qmin=0.0)
+        q = _cp(v["q"])
+        d = _NS(x=q, y=None, dy=None, dx=None, dxl=None, dxw=None, qmin=0.0, qmax=np.inf, mask=None)
+        if dtype == "pinhole":
+            d.dx = _cp(v["s"])
+        elif dtype in ("slit", "oriented"):
+            d.dxl, d.dxw = _cp(v["L"]), _cp(v["W"])
+            d.oriented = (dtype == "oriented")
+        return d
+
+    def call(self, v, sym):
+        rp = _Recorder(R.pinhole_resolution, sym)
+        rs = _Recorder(R.slit_resolution, sym)
+        saved = (R.pinhole_resolution, R.slit_resolution, DM.call_kernel, DM.np)
+        R.pinhole_resolution, R.slit_resolution, DM.call_kernel = rp, rs, _call_kernel_stub
+        if sym:
+            DM.np = ResShim()
+        try:
+            mix = DM.DataMixin()
+            model = _FakeModel(bg_default=0.001)
+            data = self.data(v, sym)
+            if self.cfg["dtype"] == "Iqxy":
+                # _interpret_data needs q for its own index; Pinhole2D reads data.q_data[index]
+                qq = data.qx_data * data.qx_data + data.qy_data * data.qy_data
+                data.q_data = sym_sqrt(qq) if sym else np.sqrt(qq)
+            mix._interpret_data(data, model)
+            res = mix.resolution
+            if sym and getattr(res, "q_calc_weights", None) is not None:
+                res.q_calc_weights = lift_exact(res.q_calc_weights)
+            out = {"res": res, "mix": mix}
+            out["full"] = mix._calc_theory({"scale": v["scale"], "background": v["bg"]})
+            out["unit"] = mix._calc_theory({"scale": 1.0, "background": 0.0})
+            out["default_bg"] = mix._calc_theory({"scale": v["scale"]})
+            Wr = rp.ret if rp.args is not None else (rs.ret if rs.args is not None else None)
+            if Wr is not None:
+                out["Wret"] = Wr
+        finally:
+            R.pinhole_resolution, R.slit_resolution, DM.call_kernel, DM.np = saved
+        return out
